@@ -877,7 +877,10 @@ class Gen(object):
             op = self._gen_kind(kind)
             if op is None: continue
             if op['op'] in READ_OPS: self.last_read = op
-            elif op['op'] in MOD_OPS and op.get('oid') is not None and r.random() < getattr(self.eng, 'followup_rate', getattr(self, 'followup_rate', 0.12)):
+            elif op['op'] in MOD_OPS and op.get('oid') is not None and \
+                    r.random() < getattr(self.eng, 'followup_rate', getattr(self, 'followup_rate', 0.12)) * (0.4 if op['op'] == 'create' and not any(isinstance(v, dict) and v.get('ref') in self.eng.unflushed for v in op.get('kw', {}).values()) else 1.0):
+                # (a new object that refers to other unsaved objects is flushed on its own at the full rate: obj.flush() then
+                # has to save its principals first; other new objects mostly stay pending so that such chains can form)
                 # patterns that need three cooperating steps: the object just changed is written on its own by
                 # obj.flush(), and then either the previous read is repeated (its cached answer must not survive) or
                 # the session is rolled back (what obj.flush() wrote must not stay in the database)
